@@ -219,11 +219,19 @@ class Run:
         else:
             raise KeyError(code)
         fn, args, kwargs = call
+        raised = None
         try:
             fn(*args, **kwargs)
         except Exception as err:  # pylint: disable=broad-except
-            return type(err).__name__
-        return None
+            raised = type(err).__name__
+        # the caller re-uses its buffer: whatever array was handed to the library is overwritten in place
+        if code == "sv":
+            poison(args[0])
+        elif code == "ad":
+            vals = list(args[0].values())[0].get("values")
+            if vals is not None:
+                poison(vals)
+        return raised
 
     def finish(self):
         from geoh5py.workspace import Workspace
@@ -238,6 +246,15 @@ class Run:
         if self.disk and self.path is not None and self.path.exists():
             self.path.unlink()
         return obs
+
+
+def poison(arr):
+    if arr.dtype == bool:
+        np.logical_not(arr, out=arr)
+    elif arr.dtype.kind in "US":
+        arr[...] = "zz"
+    else:
+        arr[...] = -777
 
 
 def spec(kind, assoc, vals):
